@@ -19,6 +19,10 @@ fn main() {
     }
     let values: Vec<i128> = if a[3] == "-" { vec![] } else { a[3].split(',').filter(|s| !s.is_empty()).map(|s| s.parse().unwrap()).collect() };
     let random = a.iter().position(|x| x == "--random").map(|i| a[i + 1].parse::<u64>().unwrap() | 1);
+    if let Ok(seed) = std::env::var("VERIF_DELAY_SEED") {
+        // delay injection at the library's sync points (native stress replay of schedule-dependent findings)
+        sentinel_core::verif::sync::set_delay_seed(seed.parse::<u64>().unwrap_or(1) | 1);
+    }
     vrt::install(values, random);
     f(Shape { p });
     println!("DONE");
